@@ -13,6 +13,14 @@ the restart and what every item holds afterwards — rendered one entry per line
   start                                                ;; at-start <name>=<state> …   (what `on_start` saw)
   restored <name>                                      ;; val=<hex> | map=<entries> | none   (what a sync / the probe saw)
 
+Lanes registered while the agent runs (the `late` rig: a harness-implemented `Agent` that calls
+`AgentContext::add_lane` on a scripted step and speaks the lane protocol itself):
+  do addlane <name> <value|map> <transient 0|1>        ;; ok
+  added <name> <ok|err>                                ;; ok              (`add_lane` returned the lane's channels / failed)
+  init <name>                                          ;; val=<hex> | map=<entries>   (what the lane held when its
+                                                          initialisation was complete: `InitComplete` received and
+                                                          answered, or — transient — at once)
+
 The model answers every line from the store operations seen so far: the state of an item after a (re)start is
 `restore ∘ fold` of the logged store operations, a transient item's state is its default. The monitor decides C05
 on the observed log alone.
@@ -115,6 +123,11 @@ def LSt.step (s : LSt) (line : String) : LSt × String :=
     | some op => ({ s with store := applyStore s.store op }, "ok")
     | none => (s, "bad-op")
   | ["start"] => (s, s.allStates)
+  | ["added", _, _] => (s, "ok")
+  | ["init", name] =>
+    match s.item? name with
+    | some it => (s, s.taggedState it)
+    | none => (s, "bad-op")
   | ["restored", name] =>
     match s.item? name with
     | some it => (s, s.taggedState it)
@@ -208,6 +221,16 @@ def Mon.step (m : Mon) (line : String) (out : String) : Mon × Option String :=
   | ["start"] =>
     if out != model.2 then (m, some (if m.restarted then "state-at-on-start-differs-from-store" else "initial-state-not-default"))
     else (m, none)
+  | ["added", _, how] =>
+    -- registration can only fail when the runtime has gone (a store failure ended the write task)
+    (m, if how == "ok" || m.failed then none else some "lane-registration-failed")
+  | ["init", name] =>
+    match m.st.item? name with
+    | some it =>
+      if out == model.2 then (m, none)
+      else if !it.persistent then (m, some "transient-item-not-at-default")
+      else (m, some "state-at-registration-differs-from-store")
+    | none => (m, some "unparsable")
   | ["restored", name] =>
     match m.st.item? name, m.expect.lookup name with
     | some it, some want =>
